@@ -86,9 +86,52 @@ func (p *rawPeer) writeFrame(f *frame.Frame) error {
 	return p.write(buf.Bytes())
 }
 
+// notLegacy: the bytes the real side wrote where the specification prescribes a bare (legacy) frame are something else
+type notLegacy struct{ what string }
+
+func (e *notLegacy) Error() string { return e.what }
+
+// legacyStart looks at the next bytes without consuming them: a frame starts with the version byte (bit 7 = direction).
+// Anything else is described - in particular whether the bytes are the header of a v5 segment (3 or 5 bytes little endian
+// followed by their CRC-24), which is what an end does that has wrongly switched to the modern framing layout.
+func (p *rawPeer) legacyStart() error {
+	_ = p.conn.SetReadDeadline(time.Now().Add(patience()))
+	b, err := p.rd.Peek(1)
+	if err != nil {
+		return err
+	}
+	if primitive.ProtocolVersion(b[0]&0x7f) == p.version {
+		return nil
+	}
+	hl := 6
+	if p.comp == primitive.CompressionLz4 {
+		hl = 8
+	}
+	b, _ = p.rd.Peek(hl)
+	seg := false
+	if len(b) == hl {
+		var data uint64
+		for i := 0; i < hl-3; i++ {
+			data |= uint64(b[i]) << (8 * uint(i))
+		}
+		got := uint32(b[hl-3]) | uint32(b[hl-2])<<8 | uint32(b[hl-1])<<16
+		seg = crc.ChecksumKoopman(data, hl-3) == got
+	}
+	return &notLegacy{fmt.Sprintf("the bytes on the wire are not a legacy frame of version %d (first byte %#02x, next bytes %x); they are the header of a "+
+		"checksummed v5 segment (CRC-24 matches): %v - the specification of this version prescribes bare frames after the handshake", p.version, b[0], b, seg)}
+}
+
 func (p *rawPeer) readFrame() (*frame.Frame, error) {
+	if err := p.legacyStart(); err != nil {
+		return nil, err
+	}
 	_ = p.conn.SetReadDeadline(time.Now().Add(patience()))
 	return p.frames.DecodeFrame(p.rd)
+}
+
+func isNotLegacy(err error) bool {
+	var e *notLegacy
+	return errors.As(err, &e)
 }
 
 type wireSeg struct {
